@@ -59,6 +59,9 @@ def _gen_hand(rng, budget, tier):
     yield "c04.tail 1048576 100 - - W636166c3,P,Wa920e2,P,W82,P,Wac0a,W6e6578740a"
     yield "c04.tail 1048576 100 - - W636166e9206372e86d650a,Wfffe0a,P"
     yield "c04.tail 16 100 - - W636166c3a920e2,P,W82ad20300a7820,W310a"
+    # the writer pauses for seconds in the middle of a line (the follow's periodic truncation check fires meanwhile)
+    yield "c04.tail 1048576 100 - - W66697273740a68656c6c6f20776f72,L3700,W6c640a6c6173740a,P"
+    yield "c04.tail 1048576 100 - 6f6c640a W70617274,L3400,P,W69616c,L3300,W0a646f6e650a"
     for _ in range(budget):
         tiny = rng.random() < 0.3
         m = rng.choice([1048576, 1048576, 16, 64])
